@@ -549,6 +549,26 @@ def r12b_collect_args(s, file, log):
     return s
 
 
+def r16_from_iterator(s, file, log):
+    """impl<..> FromIterator<X> for LinearCombination<F> { fn from_iter<T>(iter: T) -> Self ..  ->  inherent impl with the SAME body:
+    impl<F..> LinearCombination<F> { pub fn vx_from_iter_owned<T>(..) / vx_from_iter_ref<'a, T>(..) }.
+    vstd marks FromIterator `impls_cannot_extend_spec`, so the trait method cannot carry a postcondition; nothing in src/ calls it."""
+    if not file.endswith('linear_combination.rs'):
+        return s
+    pats = [
+        (r"impl<F: PrimeField> FromIterator<\(Variable<F>, F\)> for LinearCombination<F> \{(\s*)fn from_iter<T>\(",
+         r"impl<F: PrimeField> LinearCombination<F> {\1pub fn vx_from_iter_owned<T>("),
+        (r"impl<'a, F: PrimeField> FromIterator<&'a \(Variable<F>, F\)> for LinearCombination<F> \{(\s*)fn from_iter<T>\(",
+         r"impl<F: PrimeField> LinearCombination<F> {\1pub fn vx_from_iter_ref<'a, T>("),
+    ]
+    for rx, rep in pats:
+        mm = re.search(rx, s)
+        if mm:
+            log.add('R16:from-iterator', file, rp.line_of(s, mm.start()), '')
+            s = s[:mm.start()] + mm.expand(rep) + s[mm.end():]
+    return s
+
+
 def finish_linemap(s):
     """returns (text with synthetic newlines made real, linemap: source line of every output line)"""
     out_lines = []
@@ -573,6 +593,7 @@ def extract_file(repo_src, file, log):
     s = drop_lines(s, file, log)
     if file == 'errors.rs':
         s = drop_impls(s, file, log)
+    s = r16_from_iterator(s, file, log)
     s = r_derive(s, file, log)
     s = r1_visibility(s, file, log)
     s = r2_paths(s, file, log)
